@@ -288,18 +288,24 @@ type knownFinding struct {
 
 func (c *Check) loadKnown() map[string]knownFinding {
 	out := map[string]knownFinding{}
-	b, err := os.ReadFile(filepath.Join(c.VerifDir, "known_findings.json"))
-	if err != nil {
-		return out
-	}
-	var l []knownFinding
-	if err := json.Unmarshal(b, &l); err != nil {
-		fmt.Printf("HARNESS-ERROR known_findings.json unreadable: %v\n", err)
-		return out
-	}
-	for _, k := range l {
-		if k.Property == c.ID && k.Status == "known" {
-			out[k.Key] = k
+	files := []string{filepath.Join(c.VerifDir, "known_findings.json")}
+	more, _ := filepath.Glob(filepath.Join(c.VerifDir, "known_findings.d", "*.json"))
+	sort.Strings(more)
+	files = append(files, more...)
+	for _, f := range files {
+		b, err := os.ReadFile(f)
+		if err != nil {
+			continue
+		}
+		var l []knownFinding
+		if err := json.Unmarshal(b, &l); err != nil {
+			fmt.Printf("HARNESS-ERROR %s unreadable: %v\n", f, err)
+			continue
+		}
+		for _, k := range l {
+			if k.Property == c.ID && k.Status == "known" {
+				out[k.Key] = k
+			}
 		}
 	}
 	return out
